@@ -246,7 +246,7 @@ class Runner:
         if key not in self._cfg_cache:
             p = self.w.git("config", "--" + scope, "--list", "-z", check=False)
             self._cfg_cache[key] = _parse_list(p.stdout) if p.returncode == 0 else []
-        return self._cfg_cache[key]
+        return list(self._cfg_cache[key])      # a copy: callers fold concurrent writes into their baseline in place
 
     def _read(self, path):
         try:
